@@ -23,6 +23,7 @@ def run(s):
     K.huge_cases(s, 2 if s.tier == 'quick' else 12)
     K.large_cases(s, 24 if s.tier == 'quick' else 600, 'story')
     K.pair_histories(s)
+    K.reuse_objects(s, B.STORY_KINDS, 110 if s.tier == 'quick' else 6000)
     K.resend_after_reorder(s, 4 if s.tier == 'quick' else 5)
     # a running-order element that holds nothing but stories (moving every story empties it for a moment)
     K.story_grid(s, 3, layouts=('bare',), pretties=(False,), kmax=3, full=False)
